@@ -24,8 +24,9 @@ type Env struct {
 	lookup  func(name string) (Val, bool)
 	// freshBase: allocation counter of the old state (for fresh()); wt: hook receiving every value
 	// loaded from memory so that the type invariant of the cell can be assumed.
-	freshBase string
-	wt        func(v Val)
+	freshBase   string
+	wt          func(v Val)
+	localsFirst bool
 }
 
 type memUse struct {
@@ -325,6 +326,9 @@ func (env *Env) lookupPkgObj(pkg *types.Package, name string) (Val, bool) {
 	case *types.Const:
 		return env.constVal(o), true
 	case *types.Var:
+		if s, ok := env.c.constGlobal(pkg.Path() + "." + name); ok {
+			return Val{T: o.Type(), S: s}, true
+		}
 		loc := env.c.globalLoc(pkg.Path() + "." + name)
 		return env.load(loc, o.Type()), true
 	}
@@ -344,6 +348,13 @@ func (env *Env) elab(x Expr) Val {
 		return Val{T: types.Typ[types.UntypedNil], S: "nil"}
 	case *EIdent:
 		if v, ok := env.vars[x.Name]; ok {
+			// in loop invariants and site assertions a plain name denotes the variable's current value
+			// (parameters can be reassigned); old(name) is the entry value. Bound variables win.
+			if env.localsFirst && env.lookup != nil && !strings.HasPrefix(v.S, "q!") {
+				if lv, ok := env.lookup(x.Name); ok {
+					return lv
+				}
+			}
 			return v
 		}
 		if env.lookup != nil {
@@ -508,8 +519,9 @@ func (c *Ctx) sliceWF(s string) string {
 	z := c.idxLit(0)
 	l, k, o := fmt.Sprintf("(slen %s)", s), fmt.Sprintf("(scap %s)", s), fmt.Sprintf("(soff %s)", s)
 	wf := and(c.cmp("<=", intT, z, l), c.cmp("<=", intT, l, k), c.cmp("<=", intT, z, o))
-	// lengths and offsets fit in 2^62 so index arithmetic does not wrap (no real slice is larger)
-	big := c.lit(intT, pow2(62))
+	// stated assumption: no slice that exists has 2^40 or more elements (so index arithmetic does not
+	// wrap and an allocation bounded by an existing slice's length is a legal allocation)
+	big := c.lit(intT, pow2(40))
 	wf = and(wf, c.cmp("<", intT, k, big), c.cmp("<", intT, o, big))
 	wf = and(wf, fmt.Sprintf("(=> (= (sbase %s) lnil) (and (= %s %s) (= %s %s)))", s, k, z, o, z))
 	return wf
@@ -840,6 +852,8 @@ type SpecEnv struct {
 	pkg   *types.Package
 	specs []*SpecFn
 	byNm  map[string]*SpecFn
+	// constGlobals: see Program.computeConstGlobals
+	constGlobals map[string]bool
 }
 
 func (s *SpecEnv) lookup(name string) *SpecFn {
